@@ -26,6 +26,10 @@ CHECKS = {
    technique="explicit-state BFS over histories; every transaction of the alphabet is executed from every reached state and ended by TransactionCancel and by real timer expiry (1 ms timeout), intended store and device compared with the pre-transaction snapshot",
    text="From every state reachable within the depth bound every transaction of the alphabet (create, change, shrink, re-prioritise, delete, two intents; ruling and shadowed) is applied and then cancelled, and separately left to expire; afterwards the canonical intended store must equal the snapshot taken before the transaction and every path the transaction sent to the device must be back at its previous value or absence.",
    note="Expiry uses the real timer goroutine with a 1 ms timeout and a 30 s watchdog (one active thread; interleavings of confirm/cancel/expiry are C16). Unmanaged leaves removed by an aggregated list-entry delete are not required to come back."),
+ "C07": dict(level="fault_enumeration", engine="E2-faults", design="DESIGN.md §3 C07",
+   technique="exhaustive single-fault enumeration over every call the Datastore makes to target.Target, cache.Client and schema.Client during the last transaction of 10 scenarios (error and restart-at-call), each followed by a retry and compared with the fault-free run",
+   text="For each scenario the last transaction runs fault-free on the real Datastore/cache to learn its collaborator call sequence; then every call k is made to fail once (error; Read returns nothing) and, separately, the process is cut off at call k and the Datastore rebuilt over the same cache. A device fault must yield an error, unchanged intent store and running mirror and an unlocked datastore; after every fault the repeated request must succeed and reach the fault-free device configuration and intent store. The fault space (calls x kinds) is enumerated completely.",
+   note="One fault per run in both tiers (thorough adds scenarios); torn badger writes are not enumerated; cache reads cannot fail other than by returning nothing."),
  "C08": dict(level="model_checking", engine=E1, design="DESIGN.md §3 C08",
    technique="explicit-state BFS over histories with a choice-centred alphabet (top-level, nested and in-list choices, non-members with prefix-related names); device projected on choice members after every transition and compared with the winning case computed from the reference model",
    text="Exhaustive exploration of histories in which 3 owners with distinct priorities populate different cases of the same choice, are added, changed, re-prioritised and removed, one or two per transaction, with non-member siblings abx / eth-speedx in intents and in the running config. After every applied transition each choice instance on the device may hold nodes of one case only, namely the case of the lowest-priority-number contribution among live intents, whose members must carry the ruling values.",
@@ -71,7 +75,7 @@ m = {
    "add_only": True,
  },
  "engines": [
-   {"name": "E2-faults", "path": "harness/h/check_c18.go", "serves_properties": ["C18"], "kind_free_text": "fault enumeration: every assignment of failure behaviours to the collaborator calls of one operation, each executed on the real code"},
+   {"name": "E2-faults", "path": "harness/h/check_c07.go", "serves_properties": ["C07", "C18"], "kind_free_text": "fault enumeration: every assignment of failure behaviours to the collaborator calls of one operation, each executed on the real code"},
    {"name": E1, "path": "harness/h/explore.go", "serves_properties": sorted(k for k, v in CHECKS.items() if v["engine"] == E1),
     "kind_free_text": "level-synchronous explicit-state search; successor = replay of the shortest history on a fresh real Datastore/cache instance + one operation; canonical state key without timestamps; per-property oracle plug-ins"},
  ],
